@@ -2,7 +2,7 @@
    transcribes.  Recursion is on explicit fuel; exhaustion yields OutOfFuel, never a value. *)
 From stdpp Require Import base list option numbers.
 From RecordUpdate Require Import RecordUpdate.
-From Incr.Model Require Import Base.
+From Incr.Model Require Import Base Live.
 Local Open Scope Z_scope.
 
 (* ------------------------------------------------------------ pure queries *)
@@ -889,6 +889,7 @@ Fixpoint subst_tinstr (lv : nat) (locals : list nid) (t : tinstr) : tinstr :=
   | TMapWithOld fid a => TMapWithOld fid (so a)
   | TFold fid init args => TFold fid init (so <$> args)
   | TCutoff tg c => TCutoff (so tg) c
+  | TExport o => TExport (so o)
   | TBind lhs f => TBind (so lhs) (subst_bindfn (S lv) locals f)
   end
 with subst_bindfn (lv : nat) (locals : list nid) (f : bindfn) : bindfn :=
@@ -938,9 +939,10 @@ Definition instantiate (lhsv : val) (body : list tinstr) (r : operand) : M nid :
                 | _ => create_node (KFold (Clo fid cap [] false) (VInt init) cs)
                 end)
            | TCutoff tg c => n <- resolve locals tg ;; upd_node n (fun x => x <| n_cutoff := c |>) ;;; ret n
+           | TExport o => n <- resolve locals o ;; modify (fun s => s <| exports := exports s ++ [n] |>) ;;; ret n
            | TBind lhs f => l <- resolve locals lhs ;; create_bind l (subst_bindfn 0 locals f)
            end ;;
-      go body' (match t with TCutoff _ _ => locals | _ => locals ++ [n] end)
+      go body' (match t with TCutoff _ _ | TExport _ => locals | _ => locals ++ [n] end)
     end) body [] ;;
   resolve locals r.
 
@@ -1024,13 +1026,18 @@ Definition recompute_one (fuel : nat) (n : nid) : M (option nid) :=
                       end
               end) ;;
       modify (fun s => s <| cur_scope := old_scope |>) ;;;
+      (* the closure's temporaries are gone; only the returned node is still held *)
+      collect [ONode n; ONode rhs] ;;;
       upd_bind b (fun bd => bd <| b_rhs := Some rhs |>) ;;;
       let old_rhs := b_rhs bd in
       upd_node n (fun x => x <| n_changed_at := st |>) ;;;
       main <- get_node (b_main bd) ;;
       (if n_live main then change_child_bind_rhs fuel (b_main bd) old_rhs rhs 1 else ret tt) ;;;
       (match old_rhs with
-       | Some _ => invalidate_nodes_created_on_rhs fuel old_created ;;; propagate_invalidity fuel
+       | Some old =>
+           (* `old_rhs` is still held by a local while the old generation is invalidated *)
+           collect [ONode n; ONode old] ;;;
+           invalidate_nodes_created_on_rhs fuel old_created ;;; propagate_invalidity fuel
        | None => ret tt
        end) ;;;
       dassert (x <- get_node n ;; ret (n_valid x)) 344 ;;;
